@@ -11,14 +11,48 @@ import (
 	"verifharness/vlib"
 )
 
-var classNames = []string{"plain", "nested", "churn", "nested+churn"}
+var classNames = []string{"plain", "nested", "churn", "nested+churn", "hold"}
+
+func baseCases(tier string) int { return vlib.TierN(tier, 960, 96000) }
+
+// hold class: one message stays unsettled for seconds (longer than any plausible internal notice/retry timer)
+func holdCases(tier string) int { return vlib.TierN(tier, 24, 96) }
+
+func genHold(e *vlib.Env) (gcw.Program, int) {
+	r := e.R
+	j := e.Idx - baseCases(e.Tier)
+	cfgI := j % 12
+	p := gcw.Program{
+		Cfg: gochannel.Config{
+			OutputChannelBuffer:            []int64{0, 1, 4}[cfgI%3],
+			Persistent:                     (cfgI/3)%2 == 1,
+			BlockPublishUntilSubscriberAck: cfgI/6 == 1,
+		},
+		Topics:    2,
+		MetaKeys:  1,
+		PayloadSz: 8,
+	}
+	hold := 6500
+	if e.Tier == "thorough" && (j/12)%2 == 1 {
+		hold = 11000
+	}
+	for i, n := 0, r.Range(1, 2); i < n; i++ {
+		p.Pubs = append(p.Pubs, gcw.PubSpec{Topic: 0, N: r.Range(2, 4), Batch: r.Range(1, 2)})
+	}
+	for i, n := 0, r.Range(1, 2); i < n; i++ {
+		// two consumers: while one holds the first message the other one keeps receiving - nothing may arrive
+		p.Subs = append(p.Subs, gcw.SubSpec{Topic: 0, Consumers: 2, HoldFirstMs: hold, NestedTo: -1, CancelAt: -1, StopAfter: -1})
+	}
+	return p, 4
+}
 
 func init() {
 	vlib.Register(&vlib.Prop{
 		ID:    "C05",
 		Level: "exploration",
-		Cases: func(tier string) int { return vlib.TierN(tier, 960, 96000) },
+		Cases: func(tier string) int { return baseCases(tier) + holdCases(tier) },
 		Rule: "case i = workload class i%4 {plain, nested publish from the receive loop, Subscribe/cancel churn while publishing, both} x config (i/4)%12 {buffer 0/1/4 x persistent x blocking}; " +
+			"followed by a hold class (24 quick / 96 thorough cases, all 12 configs): every subscription is read by two consumers and the first message it receives is kept unsettled for 6.5 s (thorough also 11 s), longer than any plausible internal notice/retry timer, while the second consumer keeps receiving; " +
 			"1..4 publishers, subscriptions read by 1..3 consumer goroutines with delayed acks, nack sequences, 'never ack' probes, nested Publish to another topic before acking; yield/delay injection at the gochannel hook points. " +
 			"Monitors: online in-flight counter per subscription (+1 at receive, -1 immediately before the harness calls Ack/Nack; must never exceed 1); blocking mode: every returned Publish call had each active subscription start its Ack before the call returned (logical stamps), " +
 			"per (publisher, pre-existing subscription) first-delivery order = publish order; progress: a Publish still blocked at quiescence must be explained by a never-acking subscription. " +
@@ -33,6 +67,9 @@ func init() {
 }
 
 func gen(e *vlib.Env) (gcw.Program, int) {
+	if e.Idx >= baseCases(e.Tier) {
+		return genHold(e)
+	}
 	r := e.R
 	class := e.Idx % 4
 	cfgI := (e.Idx / 4) % 12
@@ -52,6 +89,7 @@ func gen(e *vlib.Env) (gcw.Program, int) {
 	}
 	// Message.UUID is not an identity: a quarter of the programs use empty or equal UUIDs (see gcw.Program.UUIDs)
 	p.UUIDs = []string{"", "", "empty", "same"}[vlib.HashStr(e.ID())%4]
+	p.MsgCtx = vlib.HashStr(e.ID()+"/msgctx")%3 == 0 // a third of the programs publish messages that carry (cancelled, soon cancelled, live) contexts
 	for i, n := 0, r.Range(1, 4); i < n; i++ {
 		t := 0
 		if !nested && r.Chance(0.3) {
@@ -103,6 +141,9 @@ func shape(p gcw.Program) string {
 	}
 	for _, sb := range p.Subs {
 		s += fmt.Sprintf("|S%d:c%d:n%d:s%d:na%v:nest%d:d%v:cf%v:ca%d", sb.Topic, sb.Consumers, sb.NackPct, sb.Slow, sb.NeverAck, sb.NestedTo, sb.During, sb.CancelFree, sb.CancelAt)
+		if sb.HoldFirstMs > 0 {
+			s += fmt.Sprintf(":hold%dms", sb.HoldFirstMs)
+		}
 	}
 	return s
 }
@@ -327,6 +368,6 @@ func judge(rn *gcw.Run, res *vlib.Result, stuck bool, dump string, released bool
 	if stuck {
 		res.Count("publishers_blocked_at_quiescence", 1)
 	}
-	res.NonTrivial = totalDel > 0 && (redeliv > 0 || nestedPubs > 0 || len(prog.Pubs) >= 2 || len(poisoned) > 0 || strings.Contains(res.Class, "churn"))
+	res.NonTrivial = totalDel > 0 && (redeliv > 0 || nestedPubs > 0 || len(prog.Pubs) >= 2 || len(poisoned) > 0 || strings.Contains(res.Class, "churn") || strings.HasPrefix(res.Class, "hold"))
 	res.Sample = map[string]any{"program": shape(prog), "deliveries": totalDel, "redeliveries": redeliv, "nested_publishes": nestedPubs, "blocked_at_quiescence": stuck}
 }
